@@ -4,7 +4,10 @@ package main
 // (Model/Vocab.v).  This is the abstraction function of the correspondence check.
 
 import (
+	"crypto/sha1"
 	"encoding/hex"
+	"regexp"
+	"sync"
 	"fmt"
 	"math"
 	"reflect"
@@ -21,7 +24,56 @@ var kindNames = map[string]string{
 	"Profile": "KProfile", "Relationship": "KRelationship", "Tombstone": "KTombstone", "Link": "KLink",
 }
 
-func hx(b []byte) string { return `(hx "` + hex.EncodeToString(b) + `")` }
+// hx renders a byte string as a Coq term.  Strings of 12 bytes or more are interned: the term is a name
+// h_<sha1 prefix> whose definition the CaseWriter prepends to every file that mentions it (big literals are
+// what makes Coq slow on case files).
+func hx(b []byte) string {
+	if len(b) < 12 {
+		return `(hx "` + hex.EncodeToString(b) + `")`
+	}
+	sum := sha1.Sum(b)
+	name := "h_" + hex.EncodeToString(sum[:7])
+	internMu.Lock()
+	interned[name] = hex.EncodeToString(b)
+	internMu.Unlock()
+	return name
+}
+
+var (
+	interned = map[string]string{}
+	internMu sync.Mutex
+	internRe = regexp.MustCompile(`h_[0-9a-f]{14}`)
+)
+
+// internDefs returns the definitions of every interned name occurring in text.
+func internDefs(text string) string {
+	seen := map[string]bool{}
+	var sb strings.Builder
+	for _, n := range internRe.FindAllString(text, -1) {
+		if seen[n] {
+			continue
+		}
+		seen[n] = true
+		if h, ok := interned[n]; ok {
+			sb.WriteString("Definition " + n + " : bytes := Eval vm_compute in hx \"" + h + "\".\n")
+		}
+	}
+	return sb.String()
+}
+
+// fnv64 is the checksum used to compare long outputs inside Coq without shipping them as literals
+// (Adler-32 arithmetic: cheap on Coq's binary numbers); it mirrors Prelude.fnv64
+func fnv64(b []byte) uint64 {
+	a, c := uint64(1), uint64(0)
+	for _, x := range b {
+		a = (a + uint64(x)) % 65521
+		c = (c + a) % 65521
+	}
+	return c*65536 + a
+}
+
+// hxSum renders (length, checksum) of a byte string: Coq term of type (nat * N)
+func hxSum(b []byte) string { return fmt.Sprintf("(%d%%N, %d%%N)", len(b), fnv64(b)) }
 
 func cbool(b bool) string {
 	if b {
